@@ -303,6 +303,23 @@ def check_fields(ctx, s, cur_idx, x, has, cname, case, scal=None, ns=None, width
             if g is None or abs(nsutil.to_float(g) - v) > 1e-6 * (1 + abs(v)):
                 ctx.violation(f"scalar-not-carried:{k}:{cname}", f"{k} = {g}, the set carried {v}", case)
                 ok = False
+    # the evidence a set carries is ONE quantity: where the set also reports it on the linear scale (Samples.evidence,
+    # .evidence_error), that is the carried log-evidence exponentiated (and the carried relative error times it), not a value
+    # recomputed from the selected rows
+    if scal and "log_evidence" in scal and getattr(s, "evidence", None) is not None and getattr(s, "log_evidence", None) is not None:
+        import math as _m
+        le_, ev_ = nsutil.to_float(s.log_evidence), nsutil.to_float(s.evidence)
+        tol_ = 1e-4 if (width == "float32") else 1e-9
+        if _m.isfinite(le_) and abs(le_) < 80 and abs(ev_ - _m.exp(le_)) > tol_ * _m.exp(le_):
+            ctx.violation(f"evidence-recomputed:{cname}", f"evidence = {ev_} but the carried log_evidence = {le_} (exp = {_m.exp(le_)})", case)
+            ok = False
+        lee_ = getattr(s, "log_evidence_error", None)
+        eve_ = getattr(s, "evidence_error", None)
+        if ok and lee_ is not None and eve_ is not None and _m.isfinite(le_) and abs(le_) < 80:
+            want_ = nsutil.to_float(lee_) * _m.exp(le_)
+            if abs(nsutil.to_float(eve_) - want_) > 10 * tol_ * (abs(want_) + 1e-300):
+                ctx.violation(f"evidence-error-recomputed:{cname}", f"evidence_error = {nsutil.to_float(eve_)} but carried relative error x evidence = {want_}", case)
+                ok = False
     if ns is not None:
         if nsutil.NS_OF(s) != ns:
             ctx.violation(f"namespace-changed:{cname}", f"result lives in {nsutil.NS_OF(s)}, source in {ns}", case)
